@@ -84,9 +84,60 @@ pub fn catch<R>(f: impl FnOnce() -> R) -> Result<R, (String, String)> {
     r.map_err(|_| LAST_PANIC.with(|p| p.borrow_mut().take()).unwrap_or_default())
 }
 
+/// Milliseconds (since process start, never 0) at which the running case
+/// started; 0 while no case runs.
+static CASE_CLOCK: std::sync::atomic::AtomicU64 = std::sync::atomic::AtomicU64::new(0);
+static PROCESS_START: std::sync::OnceLock<Instant> = std::sync::OnceLock::new();
+
+/// Exit codes of a worker whose case hung.
+pub const EXIT_HANG_AFTER_MEMORY_VIOLATION: i32 = 97;
+pub const EXIT_HANG: i32 = 98;
+
+fn now_ms() -> u64 {
+    PROCESS_START.get_or_init(Instant::now).elapsed().as_millis() as u64 + 1
+}
+
+/// Per-case hang monitor: a case that runs longer than `limit` ends the
+/// process. When the tracking allocator has recorded a memory violation by
+/// then (block freed while the kernel held it, double free), the hang is the
+/// aftermath of that violation (the code under test keeps using a freed
+/// operation state whose mutex is still locked) and is reported as such;
+/// otherwise it is an infrastructure problem (exit 2 in the end).
+pub fn start_hang_monitor(limit: Duration, marker: Option<PathBuf>, replay_of: Option<(String, PathBuf)>) {
+    now_ms();
+    std::thread::spawn(move || {
+        loop {
+            std::thread::sleep(Duration::from_millis(250));
+            let started = CASE_CLOCK.load(std::sync::atomic::Ordering::Relaxed);
+            if started == 0 || now_ms().saturating_sub(started) < limit.as_millis() as u64 {
+                continue;
+            }
+            let events = crate::track::describe_events();
+            let text = if events.is_empty() { String::new() } else { format!("the case did not return within {limit:?} after: {}", events.join("; ")) };
+            if let Some(m) = &marker {
+                let _ = std::fs::write(m, &text);
+            }
+            if let Some((id, path)) = &replay_of {
+                if events.is_empty() {
+                    eprintln!("infrastructure error: the case did not return within {limit:?} (no memory violation recorded)");
+                    std::process::exit(2);
+                }
+                println!("failure: sig={id}:hang-after-memory-violation {text}");
+                println!("VIOLATION property={id} replay={}", path.display());
+                std::process::exit(1);
+            }
+            std::process::exit(if events.is_empty() { EXIT_HANG } else { EXIT_HANG_AFTER_MEMORY_VIOLATION });
+        }
+    });
+}
+
+const CASE_LIMIT: Duration = Duration::from_secs(45);
+
 /// Run one case with panic containment.
 pub fn run_case<P: Property>(case: &P::Case, ctx: &mut Ctx) {
+    CASE_CLOCK.store(now_ms(), std::sync::atomic::Ordering::Relaxed);
     let r = catch(|| P::run(case, ctx));
+    CASE_CLOCK.store(0, std::sync::atomic::Ordering::Relaxed);
     if let Err((msg, loc)) = r {
         // A panic that escaped the driver: in harness code it's an infra
         // problem, inside a10 the driver should have caught and judged it.
@@ -181,14 +232,19 @@ pub fn worker<P: Property>(tier: Tier, seed: u64, shard: u32, of: u32, out_path:
     let known = load_known(P::ID);
     let stats = RefCell::new(Stats::new());
     let journal = out_path.with_extension("journal");
+    start_hang_monitor(CASE_LIMIT, Some(out_path.with_extension("hang")), None);
 
     // Regression tier: saved replays first (shard 0).
     if shard == 0 {
         for file in regression_files(P::ID) {
             match read_replay::<P>(&file) {
                 Ok((case, _sig)) => {
+                    if let Ok(mut f) = std::fs::File::create(&journal) {
+                        let _ = serde_json::to_writer(&mut f, &json!({"property": P::ID, "case": serde_json::to_value(&case).unwrap_or(Value::Null)}));
+                    }
                     let mut ctx = Ctx::new(P::ID, &known, tier);
                     run_case::<P>(&case, &mut ctx);
+                    let _ = std::fs::remove_file(&journal);
                     let mut s = stats.borrow_mut();
                     s.out.replayed += 1;
                     if let Some(e) = ctx.infra.clone() {
@@ -315,6 +371,7 @@ pub fn worker<P: Property>(tier: Tier, seed: u64, shard: u32, of: u32, out_path:
 /// Replay one saved case in strict mode. Exit code 0 held, 1 violation.
 pub fn replay<P: Property>(path: &Path) -> i32 {
     crate::init_process(P::uses_sim());
+    start_hang_monitor(CASE_LIMIT, None, Some((P::ID.to_string(), path.to_path_buf())));
     match read_replay::<P>(path) {
         Ok((case, _)) => {
             let lenient = std::env::var_os("A10VERIF_LENIENT").is_some();
@@ -424,6 +481,16 @@ pub fn parent<P: Property>(tier: Tier) -> i32 {
                 }
                 None => infra.push(format!("shard {shard}: no output")),
             },
+            Some(s) if s.code() == Some(EXIT_HANG) => infra.push(format!("shard {shard}: a case did not return within {CASE_LIMIT:?} (no memory violation recorded)")),
+            Some(s) if s.code() == Some(EXIT_HANG_AFTER_MEMORY_VIOLATION) && journal.exists() => {
+                let dir = verif_root().join("replays").join("found");
+                let _ = std::fs::create_dir_all(&dir);
+                let text = std::fs::read_to_string(&journal).unwrap_or_default();
+                let dst = dir.join(format!("{}-hang-{:016x}.json", P::ID, fnv(&text)));
+                let _ = std::fs::write(&dst, &text);
+                let what = std::fs::read_to_string(out.with_extension("hang")).unwrap_or_default();
+                violations.push(ShardViolation { sig: format!("{}:hang-after-memory-violation", P::ID), msg: what, replay: dst.to_string_lossy().into_owned() });
+            }
             Some(s) => {
                 // The worker died (signal or abort): crash containment. The
                 // journalled case is confirmed in a fresh process.
